@@ -502,7 +502,10 @@ class SymReal:
         if self.t.sort == "I" and b.t.sort == "I":
             return SymReal(T.imod(self.t, b.t))
         q = T.floor(T.div(T.to_real(self.t), T.to_real(b.t)))
-        return SymReal(T.sub(self.t, T.mul(T.to_real(q), b.t)))
+        ang = None
+        if self.ang is not None and b.t.op == "const" and abs(float(b.t.args[0]) - 2 * PI) < 1e-12:
+            ang = self.ang  # reducing an angle modulo 2 pi does not change its sine and cosine
+        return SymReal(T.sub(self.t, T.mul(T.to_real(q), b.t)), ang)
 
     def __rmod__(self, o):
         return _real_operand(o).__mod__(self)
